@@ -87,10 +87,10 @@ class AllocRule(sym.Rule):
                 ok = True       # the helper's own parameter: judged where it is expanded
             elif a is not None and a[0] == 'init' and eng.field_tag.get(a[1]) == 0:
                 o = a[1][2]
-                for (c, v) in st.conds:
-                    ca = cmp_atom(c)
-                    if ca is not None and ca[1] == 'ult' and v is True and const_of(ca[2]) is not None:
-                        i = single_atom(ca[3])
+                from .ir_bounds import facts
+                for (kind, x, y) in facts(st):
+                    if kind == 'lt' and const_of(x) is not None:
+                        i = single_atom(y)
                         if i is not None and i[0] == 'init' and eng.field_tag.get(i[1]) == 1 and i[1][2] == o:
                             ok = True
                 if ok is None:
